@@ -68,6 +68,8 @@ class Node(Task):
     lst: Param[List[Config]] = []
     dct: Param[Dict[str, Config]] = {}
     nested: Param[Optional[Holder]] = None
+    lol: Param[List[List[Config]]] = []
+    lod: Param[List[Dict[str, Config]]] = []
     metaup: Meta[Optional[Config]] = None
     fail: Meta[bool] = False
     gate: Meta[Optional[str]] = None
@@ -86,6 +88,8 @@ class NodeOut(Task):
     lst: Param[List[Config]] = []
     dct: Param[Dict[str, Config]] = {}
     nested: Param[Optional[Holder]] = None
+    lol: Param[List[List[Config]]] = []
+    lod: Param[List[Dict[str, Config]]] = []
     metaup: Meta[Optional[Config]] = None
     fail: Meta[bool] = False
     gate: Meta[Optional[str]] = None
@@ -108,6 +112,8 @@ class NodePass(Task):
     lst: Param[List[Config]] = []
     dct: Param[Dict[str, Config]] = {}
     nested: Param[Optional[Holder]] = None
+    lol: Param[List[List[Config]]] = []
+    lod: Param[List[Dict[str, Config]]] = []
     metaup: Meta[Optional[Config]] = None
     fail: Meta[bool] = False
     gate: Meta[Optional[str]] = None
